@@ -215,8 +215,16 @@ class Env(object):
             for pk in ([None] if auto else [1, 2, 3]):
                 choices = [[(a.name, ('ref', l)) for l in self.labels_of(a.py_type.__name__)] for a in req_refs]
                 choices += [[(a.name, v) for v in self.scalar_domain(a)[:1]] for a in req_scalars]
-                for combo in itertools.product(*choices):
+                combos = list(itertools.product(*choices))
+                for combo in combos:
                     ops.append(('create', ename, pk, dict(combo)))
+                # the new object receives an existing object through a collection argument: the existing one gets a
+                # reference to an object that has no row (and, with an automatic key, no primary key) yet
+                if pk in (None, 3):
+                    for a in e._attrs_:
+                        if a.is_collection and a.reverse is not None:
+                            items = self.labels_of(a.py_type.__name__)
+                            if items: ops.append(('create', ename, pk, dict(combos[0], **{a.name: ('refs', (items[0],))})))
         for root in self.root_entities:
             e = self.E[root]
             all_attrs = []
@@ -343,7 +351,10 @@ def operands(op):
     out = [op[i] for i in OPERAND_POS.get(op[0], ())]
     if op[0] == 'assign': out += list(op[3])
     if op[0] == 'set' and isinstance(op[3], tuple) and op[3][:1] == ('ref',): out.append(op[3][1])
-    if op[0] == 'create': out += [v[1] for v in op[3].values() if isinstance(v, tuple) and v[:1] == ('ref',)]
+    if op[0] == 'create':
+        out += [v[1] for v in op[3].values() if isinstance(v, tuple) and v[:1] == ('ref',)]
+        for v in op[3].values():
+            if isinstance(v, tuple) and v[:1] == ('refs',): out += list(v[1])
     if op[0] in ('r_exists', 'r_getby', 'r_selkw', 'r_selq') and isinstance(op[3], tuple): out.append(op[3][1])
     return out
 
@@ -469,6 +480,7 @@ class Exec(object):
         return obj
     def val(self, v):
         if isinstance(v, (tuple, list)) and len(v) == 2 and v[0] == 'ref': return self.resolve(v[1])
+        if isinstance(v, (tuple, list)) and len(v) == 2 and v[0] == 'refs': return [self.resolve(l) for l in v[1]]
         return v
 
     # ---- canonical values ------------------------------------------------------------------------
@@ -554,7 +566,8 @@ class Exec(object):
             for an, v in op[3].items():
                 names, a = rel_names(lbl, an)
                 if a is not None and a.reverse: invalidate_relationship(names, a)
-                F[(lbl, an)] = ('val', v[1] if isinstance(v, (tuple, list)) else v)
+                if isinstance(v, (tuple, list)) and v[:1] == ('refs',): F[(lbl, an)] = ('is', sorted(v[1]))
+                else: F[(lbl, an)] = ('val', v[1] if isinstance(v, (tuple, list)) else v)
             return
         if k in ('set', 'setm'):
             pairs = [(op[2], op[3])] if k == 'set' else list(op[2])
